@@ -140,6 +140,7 @@ class Exec:
         self.solver_s = 0.0
         self.funcs_run = set()
         self.fp_conversions = 0
+        self.int_divisions = 0
 
     def feasible(self, pc):
         import time
@@ -201,6 +202,27 @@ class Exec:
             mem.objs[ptr[1]] = ("cells", z3.Store(content, off, x))
             return
         raise Unsupported(kind)
+
+    def memcpy(self, mem, dst, src, n):
+        """llvm.memcpy / memmove between two memory objects of the same kind"""
+        if dst[0] != "ptr" or src[0] != "ptr":
+            raise Unsupported("memcpy between %r and %r" % (dst[0], src[0]))
+        dk, dc = mem.objs[dst[1]]
+        sk, sc = mem.objs[src[1]]
+        if dk == "cells" and sk == "cells":
+            i = z3.BitVec("memcpy_i", 64)
+            lam = z3.Lambda([i], z3.If(z3.And(z3.UGE(i, dst[2]), z3.ULT(i - dst[2], n)), z3.Select(sc, i - dst[2] + src[2]), z3.Select(dc, i)))
+            mem.objs[dst[1]] = ("cells", lam)
+            return
+        if dk == "bytes" and sk == "bytes":
+            nn, do, so = (z3.simplify(x) for x in (n, dst[2], src[2]))
+            if not all(z3.is_bv_value(x) for x in (nn, do, so)):
+                raise Unsupported("memcpy of symbolic extent between byte objects")
+            nn, do, so = nn.as_long(), do.as_long(), so.as_long()
+            chunk = list(sc[so:so + nn])
+            dc[do:do + nn] = chunk
+            return
+        raise Unsupported("memcpy %s <- %s" % (dk, sk))
 
     # ---- running one function, path-wise ----------------------------------------
     def run(self, fname, args, pc, mem):
@@ -268,6 +290,10 @@ class Exec:
                 dst, callee, a = m.groups()
                 if callee.startswith("llvm.lifetime") or callee.startswith("llvm.dbg") or callee.startswith("llvm.assume"):
                     continue
+                if callee.startswith("llvm.memcpy") or callee.startswith("llvm.memmove"):
+                    argv = self._split_args(a)
+                    self.memcpy(mem, self._argval(env, argv[0]), self._argval(env, argv[1]), self._argval(env, argv[2]))
+                    continue
                 if callee in ("mexErrMsgIdAndTxt", "mexErrMsgTxt"):
                     self.npaths += 1
                     results.append((pc, ("ERROR", callee), mem))
@@ -317,6 +343,35 @@ class Exec:
                     env[dst] = {"add": lambda: x + y, "sub": lambda: x - y, "mul": lambda: x * y, "shl": lambda: x << y,
                                 "ashr": lambda: x >> y, "lshr": lambda: z3.LShR(x, y), "and": lambda: x & y,
                                 "or": lambda: x | y, "xor": lambda: x ^ y}[op]()
+                continue
+            m = re.match(r"(%\d+) = (sdiv|udiv|srem|urem)((?: exact)*) (\w+) ([^,]+), (.+)", ins)
+            if m:
+                dst, op, _fl, ty, a, b = m.groups()
+                x, y = val(a, ty), val(b, ty)
+                self.int_divisions += 1            # division by zero / INT_MIN / -1 is undefined behaviour (z3 gives a total function)
+                env[dst] = {"sdiv": lambda: x / y, "udiv": lambda: z3.UDiv(x, y), "srem": lambda: z3.SRem(x, y), "urem": lambda: z3.URem(x, y)}[op]()
+                continue
+            m = re.match(r"(%\d+) = (fadd|fsub|fmul|fdiv)((?: fast| nnan| ninf| nsz| arcp| contract| afn| reassoc)*) double ([^,]+), (.+)", ins)
+            if m:
+                dst, op, _fl, a, b = m.groups()
+                x, y = z3.fpBVToFP(val(a), F64), z3.fpBVToFP(val(b), F64)
+                r = {"fadd": z3.fpAdd, "fsub": z3.fpSub, "fmul": z3.fpMul, "fdiv": z3.fpDiv}[op](z3.RNE(), x, y)
+                env[dst] = z3.fpToIEEEBV(r)
+                continue
+            m = re.match(r"(%\d+) = fneg double (.+)", ins)
+            if m:
+                env[m.group(1)] = val(m.group(2)) ^ bv(1 << 63, 64)
+                continue
+            m = re.match(r"(%\d+) = freeze \S+ (.+)", ins)
+            if m:
+                env[m.group(1)] = val(m.group(2))
+                continue
+            m = re.match(r"(%\d+) = extractvalue \{[^}]*\} ([^,]+), (\d+)", ins)
+            if m:
+                agg = val(m.group(2))
+                if agg[0] != "agg":
+                    raise Unsupported("extractvalue from %r" % (agg,))
+                env[m.group(1)] = agg[1][int(m.group(3))]
                 continue
             m = re.match(r"(%\d+) = icmp (\w+) ([\w.%\"*:]+) ([^,]+), (.+)", ins)
             if m:
@@ -442,14 +497,14 @@ class Exec:
             if m:
                 self._step(fname, blocks, m.group(1), block, pc, env, mem, results)
                 return
-            m = re.match(r"switch i32 ([^,]+), label %(\w+) \[", ins)
+            m = re.match(r"switch (i\d+) ([^,]+), label %(\w+) \[", ins)
             if m:
-                v, default = m.groups()
-                x = val(v, "i32")
+                sty, v, default = m.groups()
+                x = val(v, sty)
                 idx = ins_list.index(ins)
                 cases = []
                 for l in ins_list[idx + 1:]:
-                    cm = re.match(r"i32 (\d+), label %(\w+)", l)
+                    cm = re.match(r"i\d+ (-?\d+), label %(\w+)", l)
                     if cm:
                         cases.append((int(cm.group(1)), cm.group(2)))
                 notany = []
@@ -461,7 +516,7 @@ class Exec:
                 if self.feasible(pc + notany):
                     self._step(fname, blocks, default, block, pc + notany, dict(env), mem.copy(), results)
                 return
-            if re.match(r"i32 \d+, label %\w+", ins) or ins == "]":
+            if re.match(r"i\d+ -?\d+, label %\w+", ins) or ins == "]":
                 continue
             m = re.match(r"ret void", ins)
             if m:
